@@ -3,7 +3,10 @@ from facts import walk, callee_of, call_args, loc
 import hirq, anchors, absx, cone, engine
 
 EXPLANATION = ("G1 on every path of the frame decoder, `Ok(None)` (need more bytes) is returned exactly when the TLV parser reported "
-               "Incomplete, and no buffer-mutating call (advance, split_to, truncate, clear, ...) precedes that return; G2 every path "
+               "Incomplete, and no buffer-mutating call (advance, split_to, truncate, clear, ...) precedes that return; a path that answers "
+               "anything else after Incomplete must have established that the whole outermost element is already buffered (len(buf) >= "
+               "identifier octet + length octets + announced length), i.e. be dead - decided by evaluating the decoder for each of the "
+               "256 values of the first length octet with the other octets and the buffer length symbolic (rules/framelen.py); G2 every path "
                "that got past the parser consumes exactly once, by `buf.advance(buf.len() - rest.len())` where rest is the remainder "
                "component of that very parser result, and the parser is applied to the whole buffer; G3 every nom primitive reachable "
                "from the TLV parser (MIR call graph) is the `streaming` variant, so a short buffer yields Incomplete rather than an error "
@@ -32,18 +35,17 @@ def check_frame_decoder(ctx, f, G1='G1', G2='G2'):
     B = hirq.Body(f, f.hir[dp])
     ctx.analysed['bodies'].add(dp)
     buf = ('param', [d['name'] for b, d in B.defs.items() if d['kind'] == 'param'][0])
-    outs = absx.Interp(f, B).run()
+    outs = absx.Interp(f, B, local_try=True).run()          # (a `?` inside a helper expanded into the decoder leaves that helper)
     def parse_calls(o):
         return [e for e in o.st.ev if e[0] == 'call' and e[1] == 'lber::parse::Parser::parse']
     def mutations(o):
         return [e for e in o.st.ev if e[0] == 'call' and e[1].rsplit('::', 1)[-1] in MUTATORS and e[2] and e[2][0] == buf]
-    n_none = n_succ = 0
-    for o in outs:
-        if o.kind not in ('val', 'ret'):
-            continue
+    NEED_MORE = ('ctor', 'Ok', (('ctor', 'None', ()),))
+    def parser_verdict(o):
+        """(the term of the one parser application to the whole buffer | None, reported Incomplete?, failed?) on a path"""
         pcs = parse_calls(o)
         if len(pcs) != 1 or pcs[0][2][1] != buf:
-            ctx.fail(G2 + '.parser-input', dp, loc(B.root), 'the TLV parser is not applied exactly once to the whole buffer on some path'); continue
+            return None, None, None
         pterm = ('call', pcs[0][1], pcs[0][2], pcs[0][3].get('id'))
         inc = next((t for a, t in o.st.pc if a[0] == 'call' and a[1].endswith('::is_incomplete') and a[2][0] == ('variant', pterm, 'Err', 0)), None)
         if inc is None:
@@ -53,8 +55,17 @@ def check_frame_decoder(ctx, f, G1='G1', G2='G2'):
         if is_err is None:
             ok_ = next((t for a, t in o.st.pc if a == ('is', pterm, 'Ok')), None)
             is_err = (not ok_) if ok_ is not None else None
+        return pterm, inc, is_err
+    n_none = n_succ = 0
+    other_answer = []          # paths that answer something other than need-more although the parser reported Incomplete
+    for o in outs:
+        if o.kind not in ('val', 'ret'):
+            continue
+        pterm, inc, is_err = parser_verdict(o)
+        if pterm is None:
+            ctx.fail(G2 + '.parser-input', dp, loc(B.root), 'the TLV parser is not applied exactly once to the whole buffer on some path'); continue
         v = o.val
-        is_none = v == ('ctor', 'Ok', (('ctor', 'None', ()),))
+        is_none = v == NEED_MORE
         muts = mutations(o)
         if is_none:
             n_none += 1
@@ -64,7 +75,7 @@ def check_frame_decoder(ctx, f, G1='G1', G2='G2'):
                     'the buffer is modified (%s) before asking for more bytes: bytes of the partial frame are lost' % [m[1].split('::')[-1] for m in muts])
         else:
             if inc is True:
-                ctx.fail(G1 + '.incomplete-means-need-more', dp, loc(B.root), 'the parser reported Incomplete but the decoder returned %s' % absx.fmt(v)[:50]); continue
+                other_answer.append(o); continue
             if is_err is True:
                 ctx.add(G2 + '.parse-error-path', dp, loc(B.root), (v[0] == 'tryerr' or (v[0] == 'ctor' and v[1] == 'Err')) and not muts, 'a hard parse error must return Err without consuming')
                 continue
@@ -81,6 +92,20 @@ def check_frame_decoder(ctx, f, G1='G1', G2='G2'):
                     'after a complete frame was parsed the buffer must be advanced exactly once by buf.len() - rest.len(); found %s' % [absx.fmt(m[2][-1])[:60] for m in muts])
             if ok:
                 first_after = [e for e in o.st.ev if e[0] == 'call' and e[1].endswith('::advance')]
+    if other_answer:
+        # Incomplete from the parser must mean need-more.  A path that answers otherwise is tolerable only if it cannot be taken while
+        # the frame is incomplete: its condition must establish that the whole outermost element (identifier octet, length octets,
+        # announced length) is already buffered - which contradicts Incomplete, so the path is dead.  Decided for every value of the
+        # first length octet (rules/framelen.py); a path the models cannot read establishes nothing and is reported.
+        import framelen
+        def verdict(o):
+            pterm, inc, is_err = parser_verdict(o)
+            return inc, o.val == NEED_MORE
+        bad = framelen.incomplete_answers(f, B, buf, 'lber::parse::Parser::parse', verdict, mutations)
+        ctx.add(G1 + '.incomplete-means-need-more', dp, loc(B.root), not bad,
+                'the parser reported Incomplete but the decoder returned %s on a path that can be taken while the frame is still incomplete '
+                '(evaluated for all 256 values of the first length octet; wrong for %s): with first length octet 0x%02x %s' %
+                (absx.fmt(other_answer[0].val)[:50], framelen.classes(x for x, _w in bad), bad[0][0] if bad else 0, bad[0][1] if bad else ''))
     ctx.floor(G1, 'need-more paths', n_none, 1)
     ctx.floor(G2, 'paths past the parser', n_succ, 2)
 
